@@ -147,11 +147,11 @@ def roundtrip_case(seed, tid):
     from eudoxia.workload import WorkloadGenerator
     from eudoxia.workload.csv_io import CSVWorkloadReader, CSVWorkloadWriter, WorkloadTraceGenerator
     rng = random.Random(seed)
-    tps = rng.choice([1, 2, 3, 7, 10, 25, 30, 60, 100, 1000, 10**4])
+    tps = rng.choice([1, 2, 3, 7, 10, 25, 30, 60, 100, 1000, 10**4, 30000, 60000, 70000, 90000, 99999, 10**5])          # incl. tick lengths that are not decimal fractions, where the first arrivals lie below 1e-4 s
     ticks = rng.choice([40, 150, 600])
     params = parse_args_with_defaults({
         "duration": float(F(ticks, tps)) + 1e-9, "ticks_per_second": tps,
-        "waiting_seconds_mean": float(F(rng.choice([2, 5, 13]), tps)), "num_pipelines": rng.choice([1, 2, 3]),
+        "waiting_seconds_mean": float(F(rng.choice([1, 2, 5, 13]), tps)) if rng.random() < 0.85 else float(F(1, 2 * tps)), "num_pipelines": rng.choice([1, 2, 3]),
         "num_operators": rng.choice([1, 3]), "random_seed": rng.randrange(10**6)})
     gen = WorkloadGenerator(**params)
     gen_ticks = []
@@ -238,9 +238,11 @@ def roundtrip_cli_case(seed, tid):
     from . import simrec
     import eudoxia.__main__ as cli_mod
     rng = random.Random(seed)
-    tps = rng.choice([1, 3, 5, 7, 10, 25, 60, 75, 77, 91, 93, 99, 100, 128, 1000, rng.randint(2, 100)])
+    tps = rng.choice([1, 3, 5, 7, 10, 25, 60, 75, 77, 91, 93, 99, 100, 128, 1000, 30000, 60000, 90000, rng.randint(2, 100)])
     ticks = rng.randint(3, 200)
     duration = rng.choice([ticks / tps, float(F(ticks, tps)), rng.choice([0.6, 1.2, 3, 2.4, 0.3, 7])])
+    if tps >= 1000:
+        duration = ticks / tps
     d = str(common.scratch())
     pfile, tfile = f"{d}/p{tid}.toml", f"{d}/t{tid}.csv"
     keys = [("duration", repr(float(duration))), ("ticks_per_second", str(tps)), ("waiting_seconds_mean", repr(float(F(rng.choice([1, 1, 2, 5]), tps)))),
